@@ -429,8 +429,7 @@ func c20R2(c *Ctx) {
 			}
 			return false
 		}, func(ret *ast.ReturnStmt) bool {
-			ok, known := isSuccessReturn(info, sig, ret)
-			return known && !ok // error returns abandon the generation
+			return guardedFailure(fn, sig, ret) // error returns abandon the generation
 		})
 		c.Check(len(vsets) > 0 && w == nil, "C20.R2", gk.what+" is written whenever a datapath was selected", p.Pos(sw), fn.Key(), "must-pass: switch datapath → plugin.Set(…, \""+gk.key+"\") → next plugin / success return (a value of the input never survives)", "path: "+p.describePath(w))
 	}
